@@ -245,8 +245,15 @@ def _catalogue():
     F("decomp.quaternion_eigenvectors", lambda R: ([_herm(R)], {}))
     F("decomp.tridiagonalize", lambda R: ([_herm(R, 2, 5)], {}), 2)
     F("decomp.hessenberg.hessenbergize", lambda R: ([_sq(R)], {}), 2)
-    F("decomp.hessenberg.is_hessenberg", lambda R: ([_sq(R)], {}))
-    F("decomp.hessenberg.check_hessenberg", lambda R: ([_sq(R)], {}))
+    def near(R, base):
+        # structured matrix plus noise at rounding level: the input the clean-up helpers exist for
+        n = base["n"]
+        return {"gen": "add", "a": base, "b": {"gen": "scale", "c": R.choice([1e-13, 1e-14, 1e-16]),
+                                                "of": G(n, n, R.randrange(10 ** 6))}}
+    F("decomp.hessenberg.is_hessenberg", lambda R: ([R.choice([_sq(R), {"gen": "hess", "n": R.randint(1, 5), "seed": R.randrange(10 ** 6)}])], {}))
+    F("decomp.hessenberg.check_hessenberg",
+      lambda R: ([R.choice([_sq(R), near(R, {"gen": "hess", "n": R.randint(2, 5), "seed": R.randrange(10 ** 6)}),
+                            near(R, {"gen": "hess", "n": R.randint(3, 5), "seed": R.randrange(10 ** 6)})])], {}), 2)
     F("decomp.quaternion_schur", lambda R: ([G(*(lambda n: (n, n))(R.randint(1, 4)), R.randrange(10 ** 6))],
                                           {"max_iter": 40, "shift": R.choice(["wilkinson", "rayleigh"])}))
     F("decomp.quaternion_schur_pure", lambda R: ([G(*(lambda n: (n, n))(R.randint(1, 4)), R.randrange(10 ** 6))],
@@ -265,7 +272,10 @@ def _catalogue():
     F("decomp.tridiagonalize.householder_vector", hv)
     F("decomp.tridiagonalize.householder_matrix", hv)
     F("decomp.tridiagonalize.internal_tridiagonalizer", lambda R: ([_herm(R, 2, 4)], {}))
-    F("decomp.tridiagonalize.check_tridiagonal", lambda R: ([_herm(R, 2, 4)], {}))
+    F("decomp.tridiagonalize.check_tridiagonal",
+      lambda R: ([R.choice([_herm(R, 2, 4),
+                            {"gen": "add", "a": {"gen": "tridiag_herm", "n": 4, "seed": R.randrange(10 ** 6)},
+                             "b": {"gen": "scale", "c": 1e-14, "of": HERM(4, R.randrange(10 ** 6))}}])], {}), 2)
     F("utils.quat_abs_scalar", lambda R: ([{"gen": "qscalar", "q": [R.uniform(-2, 2) for _ in range(4)]}], {}))
     # image / restoration helpers (qslst)
     def img(R, c=4):
